@@ -114,6 +114,7 @@ class AsyncRun:
         self.decisions = []
         self.body = {}
         self.did_cancel = False
+        self.pos = 0  # position counter: +1 per loop step and per driver stimulus (injection points)
         self.cancelled = set()
         self.allow_native = True
 
@@ -253,8 +254,10 @@ class AsyncRun:
         scope = anyio.CancelScope()
         self.scopes[name] = scope
         resp = None
+        partial_it = None
         try:
             with scope:
+                await self._gate(name, "start")
                 ext = dict(call.extensions)
                 if call.timeout is not None:
                     ext["timeout"] = dict(call.timeout)
@@ -285,19 +288,25 @@ class AsyncRun:
                             out["body"] = body
                         out["complete"] = True
                     elif isinstance(call.consume, (tuple, list)) and call.consume[0] == "chunks":
-                        n = 0
+                        # partial consumption: pull chunks one by one and leave the iterator
+                        # suspended (it is finalised after the response has been closed)
                         if call.consume[1] > 0:
-                            async for chunk in resp.aiter_stream():
+                            partial_it = resp.aiter_stream().__aiter__()
+                            for _ in range(call.consume[1]):
+                                try:
+                                    chunk = await partial_it.__anext__()
+                                except StopAsyncIteration:
+                                    out["complete"] = True
+                                    break
                                 body += chunk
                                 out["body"] = body
-                                n += 1
-                                if n >= call.consume[1]:
-                                    break
                     self.event("BodyEnd", r=name, n=len(body), complete=bool(out.get("complete")))
                     await self._gate(name, "close")
                 finally:
                     self.phase[name] = "closing"
                     await resp.aclose()
+                    if partial_it is not None:
+                        await partial_it.aclose()
                 out["result"] = "ok"
             if scope.cancelled_caught:
                 out["result"] = "cancelled"
@@ -373,7 +382,7 @@ class AsyncRun:
             if not fut.done():
                 fut.set_result(None)
             self.event("Gate", r=st[1], gate=st[2])
-        elif kind == "tick":
+        elif kind in ("tick", "advance"):
             self.loop.advance_to(st[1])
             self.snapshot("Tick", t=st[1])
         elif kind in ("cancel", "cancel_if_live"):
@@ -461,7 +470,7 @@ class AsyncRun:
                 self.stuck = True
                 self.event("Livelock")
                 return
-            pre = self.inject.pop(self.loop.steps, None)
+            pre = self.inject.pop(self.pos, None)
             if pre:
                 for st in pre:
                     self.apply(st)
@@ -469,10 +478,11 @@ class AsyncRun:
             t = self.loop.step()
             if t is False:
                 return
+            self.pos += 1
             name = t.get_name() if t is not None else "-"
             if self.record:
                 obs = self.observe()
-                if obs != self.last_obs or len(self.events) != n_ev:
+                if obs != self.last_obs or len(self.events) != n_ev or name in self.calls:
                     self.events.append({"ev": "Step", "task": name, "obs": obs})
                     self.last_obs = obs
 
@@ -489,6 +499,7 @@ class AsyncRun:
             if st is None:
                 break
             self.apply(st)
+            self.pos += 1
             n += 1
         self.quiesce()
         live = self.live()
@@ -540,3 +551,61 @@ def scripted(script, fallback=default_decide):
         return fallback(run, en)
 
     return decide
+
+
+def run_script(run, script, settle=default_decide):
+    """High-level sequential histories: each entry is applied and then the default schedule
+    runs until nothing but start gates / the clock is left.
+      ("go", name)            release the caller's start gate
+      ("release", name, gate) release another gate of the caller
+      ("advance", t)          move the virtual clock to t
+      ("peerclose", origin_index)  the server closes an idle connection of that origin
+      ("cancel", name, style)
+    """
+    run.snapshot("Init")
+
+    def settle_all():
+        for _ in range(5000):
+            run.quiesce()
+            if run.stuck:
+                return
+            en = [s for s in run.enabled() if not (s[0] == "gate" and s[2] == "start") and s[0] != "tick"]
+            en = [s for s in en if not (s[0] == "gate" and s[2] in run.hold_gates)]
+            st = settle(run, en)
+            if st is None:
+                return
+            run.apply(st)
+            run.pos += 1
+
+    run.hold_gates = set()
+    for name in run.order:
+        if name not in run.tasks:
+            run.start(name)
+    settle_all()
+    for step in script:
+        k = step[0]
+        if k == "go":
+            run.apply(("gate", step[1], "start"))
+        elif k == "release":
+            run.apply(("gate", step[1], step[2]))
+        elif k == "advance":
+            run.apply(("advance", step[1]))
+        elif k == "peerclose":
+            o = run.origins[step[1]]
+            sid = None
+            for rec in run.net.streams:
+                if rec.open and not rec.eof and rec.owner is not None and rec.owner.is_idle() and rec.owner.can_handle_request(o):
+                    sid = rec.sid
+                    break
+            if sid is None:
+                continue
+            run.apply(("peerclose", sid))
+        elif k == "cancel":
+            run.apply(("cancel_if_live", step[1], step[2]))
+        else:
+            raise AssertionError(step)
+        run.pos += 1
+        settle_all()
+    live = run.live()
+    run.snapshot("End", live=live)
+    return run
